@@ -186,22 +186,7 @@ func VerifDialogueASA() {
 func verifFaultDialogue(model string, sc *vfsim.Scenario, spoc string, changes, joined []string, maxPos int) {
 	isCompare := vf.Param("mode", "approve") == "compare"
 	vf.Assumption("device simulator: line oriented, complete reply available when the tool reads (no chunked arrival), password input not echoed, faults: extra output (error text / unexpected text / WARNING / INFO), garbled echo, no answer, connection closed, 'write memory' without [OK]")
-	sc.FaultPos = vf.Int("faultPos", -1, maxPos)
-	kind := vf.FixInt(vf.Int("faultKind", 0, 7))
-	switch kind {
-	case 0, 1, 2, 3:
-		sc.FaultKind = vfsim.FaultOutput
-		sc.FaultText = verifFaultTexts[kind+1]
-	case 4:
-		sc.FaultKind = vfsim.FaultGarble
-	case 5:
-		sc.FaultKind = vfsim.FaultStall
-	case 6:
-		sc.FaultKind = vfsim.FaultClose
-	case 7:
-		sc.FaultKind = vfsim.FaultReplace
-		sc.FaultText = "Building configuration...\nfailed\n"
-	}
+	kind := VerifPickFault(sc, maxPos)
 	r := verifRunDev(model, sc, isCompare, true, spoc)
 	tr := r.transcript()
 	vf.Note("rc=", r.rc, "transcript:", strings.Join(tr, " | "))
@@ -248,28 +233,7 @@ func verifFaultDialogue(model string, sc *vfsim.Scenario, spoc string, changes, 
 		return
 	}
 	// approve: C09
-	hard := kind == 5 || kind == 6 // stall, close: a failure at every position
-	// the change phase: from the 'configure terminal' in front of the first
-	// change command (ASA: the second one, the first sets the terminal width;
-	// IOS: the one behind 'reload in') up to the next 'end'
-	inChangePhase := false
-	if reached {
-		c2, e := -1, -1
-		for i, l := range tr {
-			if l == "configure terminal" && (i+1 >= len(tr) || (tr[i+1] != "terminal width 511" && tr[i+1] != "no logging console")) {
-				c2 = i
-			}
-			if c2 >= 0 && e < 0 && i > c2 && l == "end" {
-				e = i
-			}
-		}
-		inChangePhase = c2 >= 0 && fp >= c2 && (e < 0 || fp <= e)
-	}
-	rejecting := kind == 0 || kind == 1 || kind == 4 // error text, unexpected text, garbled echo
-	// ASA checks the output of 'configure terminal' and 'end' too; IOS sends
-	// them with SendCmd (any output accepted)
-	checkedLine := isChange(faultLine) || (model == "ASA" && inChangePhase)
-	mustFail := reached && ((hard && faultLine != "exit") || (checkedLine && rejecting) || (faultLine == "write memory" && kind == 7))
+	mustFail := VerifMustFail(model, kind, fp, tr, changes)
 	if mustFail {
 		vf.Cover("failure injected")
 		vf.Assert(r.rc != 0, "C09: "+model+": device-side failure but exit status 0")
@@ -370,3 +334,68 @@ func verifUnmanaged(model string, changes []string, spoc string, mk func(host st
 		vf.Assert(!strings.Contains(text, verifPassword), "C17: "+model+": login password appears in "+name)
 	}
 }
+
+// VerifPickFault chooses one fault of symbolic kind at a symbolic position.
+func VerifPickFault(sc *vfsim.Scenario, maxPos int) int {
+	sc.FaultPos = vf.Int("faultPos", -1, maxPos)
+	kind := vf.FixInt(vf.Int("faultKind", 0, 7))
+	switch kind {
+	case 0, 1, 2, 3:
+		sc.FaultKind = vfsim.FaultOutput
+		sc.FaultText = verifFaultTexts[kind+1]
+	case 4:
+		sc.FaultKind = vfsim.FaultGarble
+	case 5:
+		sc.FaultKind = vfsim.FaultStall
+	case 6:
+		sc.FaultKind = vfsim.FaultClose
+	case 7:
+		sc.FaultKind = vfsim.FaultReplace
+		sc.FaultText = "Building configuration...\nfailed\n"
+	}
+	return kind
+}
+
+// VerifMustFail: does the injected fault (kind at transcript position fp)
+// count as a device-side failure in the sense of C09?
+func VerifMustFail(model string, kind, fp int, tr, changes []string) bool {
+	isChange := func(l string) bool {
+		for _, c := range changes {
+			if c == l {
+				return true
+			}
+		}
+		return false
+	}
+	reached := fp >= 0 && fp < len(tr)
+	if !reached {
+		return false
+	}
+	faultLine := tr[fp]
+	hard := kind == 5 || kind == 6 // stall, close: a failure at every position
+	// the change phase: from the 'configure terminal' in front of the first
+	// change command (ASA: the second one, the first sets the terminal width;
+	// IOS: the one behind 'reload in') up to the next 'end'
+	c2, e := -1, -1
+	for i, l := range tr {
+		if l == "configure terminal" && (i+1 >= len(tr) || (tr[i+1] != "terminal width 511" && tr[i+1] != "no logging console")) {
+			c2 = i
+		}
+		if c2 >= 0 && e < 0 && i > c2 && l == "end" {
+			e = i
+		}
+	}
+	inChangePhase := c2 >= 0 && fp >= c2 && (e < 0 || fp <= e)
+	rejecting := kind == 0 || kind == 1 || kind == 4 // error text, unexpected text, garbled echo
+	// ASA checks the output of 'configure terminal' and 'end' too; IOS sends
+	// them with SendCmd (any output accepted)
+	checkedLine := isChange(faultLine) || (model == "ASA" && inChangePhase)
+	return (hard && faultLine != "exit") || (checkedLine && rejecting) || (faultLine == "write memory" && kind == 7)
+}
+
+// exported pieces for the do-approve harness
+func VerifASAParts() (sc *vfsim.Scenario, spoc string, changes []string) {
+	return verifASAScenario("router", "router", true, verifASADevice), verifASASpoc, verifExpectedChanges(verifASADevice, verifASASpoc)
+}
+
+const VerifPassword = verifPassword
